@@ -192,8 +192,8 @@ def main():
     res = ck.step_generate('Gen_C12', TARGETS)
     if res is not None:
         ck.step_prove('P_C12')
-    n = 1600 if ck.thorough() else 90
-    goals = run_cases(ck, res, n, 12 if ck.thorough() else 4)
+    n = 8000 if ck.thorough() else 90
+    goals = run_cases(ck, res, n, 30 if ck.thorough() else 4)
     if res is not None:
         ck.step_interval_goals('corr', goals)
     if ck.broken and not ck.failures:
